@@ -7,10 +7,11 @@ import (
 // Random generators for documents and expressions inside the domain on which the
 // specification is exact (dyadic numerals of small magnitude, the abstract alphabet).
 type Gen struct {
-	r       *rand.Rand
-	nsVars  []string // names of node-set variables available
-	numVars []string
-	strVars []string
+	r        *rand.Rand
+	nsVars   []string // names of node-set variables available
+	numVars  []string
+	strVars  []string
+	boundFns bool // the "bindings" environment is in force: user functions p:f, here(), q:pos(), string() (shadowing)
 }
 
 func ch(s string) []string { // "ab" -> ["a","b"]
@@ -383,7 +384,27 @@ func (g *Gen) Bool(depth int) *Expr {
 	return g.Bool(0)
 }
 
+func (g *Gen) bound(depth int) *Expr {
+	switch g.r.Intn(6) {
+	case 0:
+		return &Expr{Op: "call", Pre: "p", Lo: ch("f"), Args: []Expr{*g.Num(depth), *g.Any(depth)}}
+	case 1:
+		return &Expr{Op: "filter", Prim: call("here"), Steps: g.steps(depth, false)}
+	case 2:
+		return &Expr{Op: "path", Abs: true, Steps: []Step{{Ax: "descendant", Test: &Test{K: "any"},
+			Preds: []Expr{*bin("eq", &Expr{Op: "call", Pre: "q", Lo: ch("pos")}, num(int64(1+g.r.Intn(3)), 1))}}}}
+	case 3:
+		return call("string", g.Any(depth), g.Num(0)) // the user's string(): number of arguments
+	case 4:
+		return &Expr{Op: "var", Pre: "p", Lo: ch("s")}
+	}
+	return &Expr{Op: "var", Lo: ch("b")}
+}
+
 func (g *Gen) Any(depth int) *Expr {
+	if g.boundFns && g.r.Intn(4) == 0 {
+		return g.bound(depth - 1)
+	}
 	switch g.r.Intn(4) {
 	case 0:
 		return g.NodeSet(depth, false)
